@@ -8,7 +8,7 @@
    What the reader yields for damaged files (missing / wrong size) is the subject
    of C10/C20 and enters here as the item list. *)
 From Coq Require Import Lia.
-From Torf Require Import Base Extracted Corrupt CorruptProofs Pipeline PipelineProofs FlowProofs PipeExplore PipeExploreProofs PipeConfigs VerifyTrueProofs VerifyFalseProofs ThreadProofs DeadlockProofs ConservationProofs ReaderDoneProofs DrainProofs CompleteProofs.
+From Torf Require Import Base Extracted Corrupt CorruptProofs Pipeline PipelineProofs FlowProofs PipeExplore PipeExploreProofs PipeConfigs VerifyTrueProofs VerifyFalseProofs ThreadProofs DeadlockProofs ConservationProofs ReaderDoneProofs DrainProofs CompleteProofs ReportProofs.
 Open Scope Z_scope.
 
 (* a changed byte at stream position p inside file k: the content error for piece p / L names file k *)
@@ -69,6 +69,33 @@ Theorem C02_false_on_intact_means_stopped : forall c s expd,
   yielded (cf_items c) = map RPiece expd -> s_result s = Some ResFalse -> s_stop s = true.
 Proof. exact verify_false_on_intact_means_stopped. Qed.
 Print Assumptions C02_false_on_intact_means_stopped.
+
+(* UNBOUNDED, exactness of the reports: in a verification with a passive callback (one that returns None), under every
+   schedule, hasher count, reporting interval and clock,
+   - nothing is ever delivered as an error of a piece that is not one of its errors: [errs c expd i] is the list
+     of errors piece i of the content must be reported with -- the read / size errors its item carries, or the
+     content error 1000 when its hash differs from the recorded one, or nothing;
+   - when the run returns, every error of every piece of the content has been delivered for that piece index. *)
+Theorem C02_no_spurious_report : forall c expd,
+  cf_plan c = CbQuiet -> cf_verify c = Some expd -> forall s d idx e,
+  reach c s -> In (d, idx, Some e) (s_calls s) -> In e (errs c expd idx).
+Proof. exact no_spurious_report. Qed.
+Print Assumptions C02_no_spurious_report.
+
+Theorem C02_every_damaged_piece_reported : forall c expd,
+  cf_plan c = CbQuiet -> cf_verify c = Some expd -> forall s r i e,
+  (1 <= cf_hashers c)%nat -> reach c s -> s_result s = Some r -> verdict r ->
+  0 <= i < nitems c -> In e (errs c expd i) -> exists d, In (d, i, Some e) (s_calls s).
+Proof. exact every_damaged_piece_reported. Qed.
+Print Assumptions C02_every_damaged_piece_reported.
+
+(* non-vacuity: three pieces, the second corrupt (hash 9 instead of 2), two hashers, passive callback: the run
+   returns False, piece 1 must be reported with the content error and is, and nothing else is *)
+Example C02_reports_example :
+  let s := auto_run 400 V_corrupt_cb (init V_corrupt_cb) in
+  reach V_corrupt_cb s /\ s_result s = Some ResFalse /\ errs V_corrupt_cb [1; 2; 3] 1 = [1000] /\
+  errs V_corrupt_cb [1; 2; 3] 0 = [] /\ filter (fun x => match snd x with Some _ => true | None => false end) (s_calls s) = [(2, 1, Some 1000)].
+Proof. split; [apply auto_run_reach; constructor|vm_compute; repeat split; reflexivity]. Qed.
 
 (* non-vacuity: 40 intact pieces, one hasher, a callback that cancels at the first report: the run is reachable,
    returns False and has collected 4 hashes *)
